@@ -5,7 +5,7 @@ CB = 'yaclib::detail::BaseCore::_callback'
 
 
 def run(ctx):
-    fbs = ctx.facts(['K17', 'K20'], kinds=('probe', 'lib'), only=r'p_async\.cpp$|p_coro\.cpp$|src/')
+    fbs = ctx.facts(['K17', 'K20'], kinds=('probe', 'lib'), only=r'p_async\.cpp$|p_coro\.cpp$|src/', tests=r'/test/')
     rr = ctx.rule('R-READY', 'shared readiness predicates are false on Empty and Callback', minimum=3)
     rw = ctx.rule('R-WORD', 'protocol of _callback (shared push: CAS in a loop that re-tests kResult)', minimum=10)
     ro = ctx.rule('R-ORDER', 'role minimum orders of _callback', minimum=10)
@@ -19,7 +19,11 @@ def run(ctx):
     rn = ctx.rule('R-NODISCARD', 'registration results used', minimum=20)
     rnr = ctx.rule('R-NODEREUSE', 'one callback object is registered on at most one shared core (intrusive next link)',
                    minimum=4)
+    ra = ctx.rule('R-AFTERRELEASE', 'an observer reads the shared value only while it still owns its reference '
+                  '(Retire, SetResultImpl<Shared>, the combinators\' Consume)', minimum=10)
     for cfg, fb in sorted(fbs.items()):
+        lib_core.check_after_release(ctx, fb, ra, lambda f: any(x in f.file for x in (
+            'shared_core', 'unique_core', 'result_core', 'base_core', 'when/', 'drop_core', 'wait_event')))
         seen = 0
         for f in sorted(fb.fn.values(), key=lambda f: f.full):
             if f.qn == 'yaclib::SharedFutureBase::Ready':
